@@ -304,6 +304,17 @@ def directed_specs(rng, top, kind, markers):
     as_file = [keep, (N, 0o100644, mk())]
     poison = (b"zz", 0o40000, [(rng.choice([b".git", b"..", b".GIT"]), 0o40000, [(b"x", 0o100644, mk())])])
     tail = rng.choice([[], [[keep]], [as_dir], [as_file]])
+    if kind == "slash-name-after-subtree":
+        # a root entry whose *name* contains slashes (a/b/c/evil) sorts after the real subtree a/: the sorted pass goes backwards into a
+        # directory chain it has already left, where a/b/c is a symlink to a place outside the work tree or inside .git
+        A, B, C = rng.sample([b"a", b"b", b"c", b"d", b"sub", b"x y"], 3)
+        inner = [(B, 0o40000, [(C, 0o120000, tgt), (b"x", 0o100644, mk())]),
+                 (C, 0o40000, [(b"y", 0o100644, mk()), (b"z", 0o100644, mk())] + ([(b"w", 0o100644, mk())] if rng.random() < 0.5 else []))]
+        evil = rng.choice([b"evil", b"victim", b"file", b"pre-commit", b"config", b"created"])
+        spec = [keep, (A, 0o40000, inner), (A + b"/" + B + b"/" + C + b"/" + evil, rng.choice([0o100644, 0o100755]), mk())]
+        if rng.random() < 0.4:
+            spec.append((A + b"/" + C + b"/" + evil, 0o100644, mk()))
+        return [spec] + tail[:1]
     if kind == "dir-then-link":
         return [as_dir, as_link] + tail
     if kind == "link-then-dir":
@@ -521,7 +532,8 @@ def run_case(case):
         specs = [gen_tree(rng, top, pool_names, markers, hostility) for _ in range(nsteps)]
         directed = case.get("directed")
         if directed is None and rng.random() < 0.35:
-            directed = rng.choice(["dir-then-link", "link-then-dir", "dir-then-link-refused-midway", "link-then-gitlink", "file-then-dir-then-link"])
+            directed = rng.choice(["dir-then-link", "link-then-dir", "dir-then-link-refused-midway", "link-then-gitlink", "file-then-dir-then-link",
+                                   "slash-name-after-subtree"])
         if directed:
             specs = directed_specs(rng, top, directed, markers)
             nsteps = len(specs)
@@ -722,7 +734,7 @@ def main(ctx):
     for d in ("reset_index", "reset-hard", "checkout", "update_working_tree", "clone", "stash", "patch", "mixed-then-hard", "switch"):
         for i in range(ctx.budget(120, 1500)):
             cases.append({"seed": "%d/%s/%d" % (ctx.seed, d, i), "driver": d})
-    for k in ("dir-then-link", "link-then-dir", "dir-then-link-refused-midway", "link-then-gitlink", "file-then-dir-then-link"):
+    for k in ("dir-then-link", "link-then-dir", "dir-then-link-refused-midway", "link-then-gitlink", "file-then-dir-then-link", "slash-name-after-subtree"):
         for d in ("reset-hard", "checkout", "update_working_tree", "reset_index", "mixed-then-hard", "switch", "stash", "clone"):
             for i in range(ctx.budget(12, 150)):
                 cases.append({"seed": "%d/%s/%s/%d" % (ctx.seed, k, d, i), "driver": d, "directed": k})
